@@ -280,8 +280,8 @@ static void proj(FILE *f, const vrt_rec_t *r)
 					r->site->dvs_func, r->site->dvs_mo, r->ok, r->site->dvs_line);
 			break;
 		}
-		fprintf(f, "{\"e\":\"St\",\"t\":%d,\"f\":\"%s\",\"op\":\"%s\",\"mo\":\"%s\",\"ok\":%d,\"line\":%d,", r->tid,
-				r->site->dvs_func, r->site->dvs_op, r->site->dvs_mo, r->ok, r->site->dvs_line);
+		fprintf(f, "{\"e\":\"St\",\"t\":%d,\"f\":\"%s\",\"op\":\"%s\",\"mo\":\"%s\",\"ok\":%d,\"line\":%d,\"off\":%ld,\"n\":%llu,", r->tid,
+				r->site->dvs_func, r->site->dvs_op, r->site->dvs_mo, r->ok, r->site->dvs_line, r->off, (unsigned long long)r->seq);
 		pabs(f, "old", r->oldv); fputc(',', f); pabs(f, "new", r->newv);
 		fprintf(f, "}\n");
 		break;
